@@ -164,4 +164,55 @@ mod harness {
         kani::assert(one != l && l != one, "C10:sets_of_different_size_differ");
         core::mem::forget(l); core::mem::forget(r); core::mem::forget(one);
     }
+
+    #[kani::proof]
+    #[kani::unwind(6)]
+    pub(crate) fn probe_min_hash_set() {
+        let mut m: VariadicHashSet<S, ConstHasher> = VariadicHashSet::with_hasher(ConstHasher);
+        let a: (u8, u8) = kani::any();
+        kani::assert(m.insert(var_expr!(a.0, a.1)), "C10:set_insert_reports_true_for_a_new_tuple");
+        kani::assert(m.len() == 1, "C10:set_len_counts_distinct_tuples");
+        core::mem::forget(m);
+    }
+
+    #[kani::proof]
+    #[kani::unwind(6)]
+    pub(crate) fn probe_a_insert_contains() {
+        let mut m: VariadicHashSet<S, ConstHasher> = VariadicHashSet::with_hasher(ConstHasher);
+        let a: (u8, u8) = kani::any();
+        m.insert(var_expr!(a.0, a.1));
+        let x: (u8, u8) = kani::any();
+        kani::assert(m.contains(var_expr!(&x.0, &x.1)) == (x == a), "C10:contains_iff_inserted");
+        core::mem::forget(m);
+    }
+    #[kani::proof]
+    #[kani::unwind(6)]
+    pub(crate) fn probe_b_insert_dup() {
+        let mut m: VariadicHashSet<S, ConstHasher> = VariadicHashSet::with_hasher(ConstHasher);
+        let a: (u8, u8) = kani::any();
+        m.insert(var_expr!(a.0, a.1));
+        kani::assert(!m.insert(var_expr!(a.0, a.1)), "C10:set_insert_reports_false_for_a_duplicate");
+        kani::assert(m.len() == 1, "C10:set_len_counts_distinct_tuples");
+        core::mem::forget(m);
+    }
+    #[kani::proof]
+    #[kani::unwind(6)]
+    pub(crate) fn probe_c_counted_two() {
+        let mut m: VariadicCountedHashSet<S, ConstHasher> = VariadicCountedHashSet::with_hasher(ConstHasher);
+        let a: (u8, u8) = kani::any();
+        m.insert(var_expr!(a.0, a.1));
+        m.insert(var_expr!(a.0, a.1));
+        kani::assert(m.len() == 2, "C10:len_counts_every_insert_with_multiplicity");
+        core::mem::forget(m);
+    }
+    #[kani::proof]
+    #[kani::unwind(6)]
+    pub(crate) fn probe_d_concrete_counted_eq() {
+        let mut l: VariadicCountedHashSet<S, ConstHasher> = VariadicCountedHashSet::with_hasher(ConstHasher);
+        let mut r: VariadicCountedHashSet<S, ConstHasher> = VariadicCountedHashSet::with_hasher(ConstHasher);
+        l.insert(var_expr!(1, 2)); l.insert(var_expr!(1, 2));
+        r.insert(var_expr!(1, 2)); r.insert(var_expr!(3, 4));
+        kani::assert(l != r, "C10:counted_set_equality_compares_multiplicities");
+        core::mem::forget(l); core::mem::forget(r);
+    }
 }
